@@ -289,6 +289,12 @@ def run(ctx):
         r0 = mtlib.run_driver(exe, "dec", g["path"], os.path.join(wd, "cnt.out"), os.path.join(wd, "cnt.tr"), failalloc=10 ** 9, **p0)
         mm = re.search(r"allocs=(\d+)", r0["stdout"])
         if not mm:
+            if r0["hang"] or r0["rc"] not in (0, 66):
+                # the counting run (no allocation fails in it) is an ordinary run: a hang / crash in it is a verdict
+                ctx.violation(("hang:%s:T%d:to%d" % (g["file"], g["nw"], g["timeout"])) if r0["hang"] else "crash:%s" % g["file"],
+                              "the allocation-counting run of the threaded decoder did not finish (rc %s)\n%s" % (r0["rc"], r0["stderr"][-1500:]),
+                              dict(kind="run", params=p0, file=g["file"]))
+                continue
             raise MachineryError("could not count the allocations of a threaded decoder run: %r" % r0["stdout"][-200:])
         for kk in range(1, int(mm.group(1)) + 1):
             jobs.append((g, dict(p0, failalloc=kk)))
